@@ -194,31 +194,32 @@ def tell (s : ZFile σ) : Except Fault Nat :=
 def rewind (s : ZFile σ) : ZFile σ :=
   { s with mode := .read, pos := 0, buffer := [], bufferOffset := 0, src := S.rewind s.src }
 
+/-- Second half of `seek`, `offset` being the absolute target: rewind if it lies behind, then read and
+discard up to it. -/
+def seekAbs (fuel : Nat) (offset : Int) (s : ZFile σ) : Except Fault (ZFile σ × Nat) :=
+  -- Make it so that offset is the number of bytes to skip forward.
+  let so : ZFile σ × Int := if offset < (s.pos : Int) then (rewind S s, offset) else (s, offset - s.pos)
+  -- Read and discard data until we reach the desired position.
+  match readBlock S fuel so.2 so.1 with
+  | .error f => .error f
+  | .ok (s, _) => .ok (s, s.pos)
+
 /-- `seek(offset, whence)`; returns the new position. -/
 def seek (fuel : Nat) (offset whence : Int) (s : ZFile σ) : Except Fault (ZFile σ × Nat) :=
   match checkCanRead s with
   | .error f => .error f
   | .ok () =>
     -- Recalculate offset as an absolute file position.
-    let r : Except Fault (ZFile σ × Int) :=
-      if whence = 0 then .ok (s, offset)
-      else if whence = 1 then .ok (s, (s.pos : Int) + offset)
-      else if whence = 2 then
-        if s.size < 0 then
-          match readAll S fuel s with
-          | .error f => .error f
-          | .ok (s, _) => .ok (s, s.size + offset)
-        else .ok (s, s.size + offset)
-      else .error (.exc .valueError)
-    match r with
-    | .error f => .error f
-    | .ok (s, offset) =>
-      -- Make it so that offset is the number of bytes to skip forward.
-      let (s, offset) := if offset < (s.pos : Int) then (rewind S s, offset) else (s, offset - s.pos)
-      -- Read and discard data until we reach the desired position.
-      match readBlock S fuel offset s with
-      | .error f => .error f
-      | .ok (s, _) => .ok (s, s.pos)
+    if whence = 0 then seekAbs S fuel offset s
+    else if whence = 1 then seekAbs S fuel ((s.pos : Int) + offset) s
+    else if whence = 2 then
+      -- Seeking relative to EOF - we need to know the file's size.
+      if s.size < 0 then
+        match readAll S fuel s with
+        | .error f => .error f
+        | .ok (s, _) => seekAbs S fuel (s.size + offset) s
+      else seekAbs S fuel (s.size + offset) s
+    else .error (.exc .valueError)
 
 /-- `close()` of a file open for reading. -/
 def close (s : ZFile σ) : ZFile σ :=
